@@ -278,7 +278,7 @@ def run_case(case, tier="quick", seed=0, do_replay=True):
                 res["vacuity"] = _vacuity(case, ctx, fo, fr)
         ctx.pc = []
         # canary: reference evaluated on perturbed inputs must be refuted with a witness
-        if case.canary_scale and paths and paths[0][1][0] == "ret":
+        if getattr(case, "run_canary", True) and paths and paths[0][1][0] == "ret":
             res["canary"] = _canary(case, ctx, I, mk, ops, paths)
         # conformance of the encoding with the real (unpatched) float code
         res["conformance"] = _conformance(case, ctx, mk, paths)
@@ -455,6 +455,8 @@ def _canary(case, ctx, I, mk, ops, paths):
         pc, (kind, out) = paths[0]
         ctx.pc = list(pc)
         fo = flatten(out)
+        if all(all(x.is_const for _, x in parts(ctx, v)) for _, v in fo[:64]):
+            return "trivial"  # the code's output does not depend on the inputs (e.g. zero by parity)
         strategies = []
         if name in mk.names:
             class CMaker(SymMaker):
